@@ -22,7 +22,8 @@ func init() {
 			"R6 the name of a change does not steer positions — the token.File that receives a section's line table is the object created for that section (FileSet.AddFile result / FileSet.File at a position of that side's parse result), never looked up by a name two changes may share. " +
 			"NOT decided (runtime relation over positions): consistent renaming beyond R4, declaration regrouping, re-wrapping / re-spacing of the Go code, blank lines inside patterns, context line versus '-'/'+' pair." +
 			" R9 each change is parsed and compiled on its own (no parse cache, no parser state, fresh compilers, no x.f = x.f[:0])." +
-			" R10 kept patch text is not a window into a reader's buffer (C03-R12).",
+			" R10 kept patch text is not a window into a reader's buffer (C03-R12)." +
+			" R11 both sides of a change read names by the same declarations. R7 also: patch lines reach the parsers untrimmed.",
 		Trusted:     commonTrusted,
 		Assumptions: commonAssumptions,
 	})
